@@ -96,7 +96,8 @@ def next_section(name="", report=MAIN_REPORT):
     section_number = _calculate_section_number(section_index)
     report[TOOL_NAME]['section_group'] = FeedbackSourceSection(section_number)
     sections = source['sections']
-    found = _calculate_section_number(len(source['sections']))
+    # re.split yields the prologue plus a (marker, body) pair per section
+    found = int((len(source['sections']) - 1) / 2)
     if section_number <= found:
         if source['independent']:
             new_code = ''.join(sections[section_index])
